@@ -5,7 +5,8 @@
 (* ParamCache.  Event: [op, now, c (cache by fields), w (cache as make_update   *)
 (* renders it), o (messages delivered per connection/parameter), s (client-side *)
 (* replay of everything received), unl (#updates sent outside updateLock), lk]. *)
-(* First record of a trace: [omit, sub, nodefault, c, now].                     *)
+(* First record of a trace: [omit, sub, nodefault, hidden, c, now].             *)
+(* An internal parameter callback is recorded as the connection "cb".           *)
 EXTENDS ParamCache, Json, IOUtils, TLCExt, SequencesExt
 Traces == JsonDeserialize(IOEnv.TRACE_FILE)
 NT == Len(Traces)
@@ -17,6 +18,7 @@ I0 == Traces[t][1]
 
 TInit == /\ t \in 1 .. NT /\ l = 2 /\ bad = ""
          /\ omit = [p \in Params |-> I0.omit[p]]
+         /\ hidden = ToSet(I0.hidden)
          /\ cache = [p \in Params |-> [val |-> IF I0.c[p][1] = "-" THEN CHOOSE v \in Vals : TRUE ELSE I0.c[p][1],
                                        err |-> I0.c[p][2], ts |-> I0.c[p][3]]]
          /\ now = I0.now
